@@ -50,7 +50,7 @@ def quad(func, p, a, b, **kwargs):
 
     Np = len(p)
     isobs = [True if isinstance(pi, Obs) else False for pi in p]
-    pval = np.array([p[i].value if isobs[i] else p[i] for i in range(Np)],)
+    pval = np.array([p[i].value if isobs[i] else p[i] for i in range(Np)], dtype=np.float64)
     pobs = [p[i] for i in range(Np) if isobs[i]]
 
     bounds = [a, b]
